@@ -160,6 +160,25 @@ CLAIMED = {
             "to, the quoted line and caret, attribution inside included files, run-time warnings — decided by the "
             "planted-fault oracle (13 fault kinds x random layout).",
             "trusted: Model/Lexer.v, Model/Ifdef.v; planted-fault oracle"),
+    "C18": ("PARTIAL proof. Coq theorems on the hand model of parse_args (Model/Cli.v; FLAGS and PICKY_FLAGS regenerated "
+            "from hera/main.py): an accepted argument vector has exactly the settings its flags denote — none of the "
+            "informational flags, every mode-specific flag compatible with the chosen mode, not both --quiet and --verbose, "
+            "a well-formed --init; an argument that looks like a flag but is none is refused on the spot; a --throttle "
+            "value that is not a decimal number is refused in both syntaxes, and an accepted one is a natural number. NOT "
+            "theorems: exit statuses 0/1/3, absence of tracebacks, stdout/stderr separation, the assemble files — decided "
+            "by the oracle on hera.main.main over enumerated vectors x valid, invalid, warning-only, empty, hex, missing, "
+            "directory, non-ASCII and unwritable inputs.",
+            "trusted: Model/Cli.v (differential on enumerated argument vectors), the oracle in tools/props/C18.py"),
+    "C19": ("PARTIAL proof. Coq theorems on the hand model of the library's div/mod arithmetic (Model/Stdlib.v, shared by "
+            "both calling conventions): for all 16-bit arguments div is signed division truncating towards zero and mod "
+            "its remainder (sign of the dividend), a zero divisor gives zero, results are 16-bit words and "
+            "divisor*quotient+remainder recomposes the dividend. NOT theorems: the functions written in HERA assembly "
+            "(size, ord, chr, not, concat, substring, tstrcmp, malloc) and the calling contract — decided by running each "
+            "function in both conventions on the real interpreter with edge/random arguments under random register "
+            "contents (result vs independent computation, return to the caller, SP/FP restored, R1..R10 preserved in the "
+            "stack convention, malloc blocks disjoint).",
+            "trusted: Model/Stdlib.v (differential on an edge grid + random words), the oracle in tools/props/C19.py; "
+            "known finding D45 (stack getline)"),
 }
 
 checks = []
@@ -188,7 +207,7 @@ m = {
                                    "tools/translate), Spec, Model, Proofs, Properties"}],
     "checks": checks,
     "not_applicable": [{"property_id": p["id"],
-                        "reason": "check under construction in this session (DESIGN.md §8 order of construction); not yet claimed"}
+                        "reason": "not claimed"}
                        for p in props if p["id"] not in CLAIMED],
     "notes": "see DESIGN.md; ./check <ID> [--tier quick|thorough]; VERIF_SEED, VERIF_REPO honoured",
 }
